@@ -75,17 +75,34 @@ theorem detailed_place_frame (hasCallback : Bool) (L : LegVectors) (exposed : Li
   exact runWrites_frame _ c
 
 /-- The wrappers `Circuit::placeGlobal / legalize / placeDetailed` (src/coloquinte.cpp): the
-`InUseGuard` sets `isInUse_` for the duration of the body and clears it when the call ends, by
-return or by exception; whatever the body (any sequence of exports, any outcome), the circuit
-satisfies the frame and the flag is `false` afterwards — equal to its value before the call
-whenever the circuit was not already being placed (C10 `busy_released` is the same fact on the
-translated API). -/
-theorem guarded_call_frame (ws : List Write) (o : Outcome) (s : Guarded) :
-    (withInUseGuard (runStage ws o) s).1 = o ∧
-    (withInUseGuard (runStage ws o) s).2.inUse = false ∧
-    (s.inUse = false → (withInUseGuard (runStage ws o) s).2.inUse = s.inUse) ∧
-    Frame true s.c (withInUseGuard (runStage ws o) s).2.c :=
-  ⟨rfl, rfl, fun h => h.symm ▸ rfl, runWrites_frame ws s.c⟩
+`InUseGuard` holds `isInUse_` set for the duration of the body and undoes it when the call ends, by
+return or by exception.  For both guard shapes the translator accepts (set/clear, `restores = false`;
+save/set/restore, `restores = true`), whatever the body (any sequence of exports, any outcome): the
+outcome is the body's, the circuit satisfies the frame, and `isInUse_` after the call equals its
+value before the call — always for the restore shape, and for the set/clear shape whenever the call was
+entered with the flag clear (otherwise that shape leaves it clear).  C10 `busy_released` is the same fact
+on the translated API. -/
+theorem guarded_call_frame (restores : Bool) (ws : List Write) (o : Outcome) (s : Guarded) :
+    (withInUseGuard restores (runStage ws o) s).1 = o ∧
+    Frame true s.c (withInUseGuard restores (runStage ws o) s).2.c ∧
+    (s.inUse = false → (withInUseGuard restores (runStage ws o) s).2.inUse = s.inUse) ∧
+    (restores = true → (withInUseGuard restores (runStage ws o) s).2.inUse = s.inUse) ∧
+    (restores = false → (withInUseGuard restores (runStage ws o) s).2.inUse = false) := by
+  refine ⟨rfl, runWrites_frame ws s.c, fun h => ?_, fun h => ?_, fun h => ?_⟩
+  · cases restores
+    · exact h.symm
+    · rfl
+  · subst h; rfl
+  · subst h; rfl
+
+/-- non-vacuity: a nested call (entered with the flag set) under the restore shape keeps the flag, under
+the set/clear shape it would drop it; a top-level call ends with the flag clear under both. -/
+example :
+    (withInUseGuard true (runStage [] .threw) ⟨true, default⟩).2.inUse = true ∧
+    (withInUseGuard false (runStage [] .threw) ⟨true, default⟩).2.inUse = false ∧
+    (withInUseGuard true (runStage [] .returned) ⟨false, default⟩).2.inUse = false ∧
+    (withInUseGuard false (runStage [] .returned) ⟨false, default⟩).2.inUse = false := by
+  decide
 
 /-- non-vacuity of the callback path: with a callback the exposed placement is exported (the movable
 cell moves to round(5 − 0.5·2), round(6 − 0.5·4) before the final export overwrites it), without
@@ -116,7 +133,12 @@ def _root_.ColoVerif.Gen.WriteSets.Target.isInUse : Target → Bool
   | _ => false
 
 def _root_.ColoVerif.Gen.WriteSets.Kind.isScoped : Kind → Bool
-  | .scoped => true
+  | .scoped | .scopedRestore => true
+  | _ => false
+
+/-- the guard shape found at a site: does its destructor put the saved value back? -/
+def _root_.ColoVerif.Gen.WriteSets.Kind.restores : Kind → Bool
+  | .scopedRestore => true
   | _ => false
 
 def _root_.ColoVerif.Gen.WriteSets.Target.isCellVector : Target → Bool
@@ -147,8 +169,9 @@ src/place_detailed plus every overload of the placement entry points `Circuit::p
 * a non-const `Circuit &` (or `*this`) is only ever handed to functions that are themselves analysed;
 * the table is not empty (it contains cell-vector writes);
 * `isInUse_` is written only through a scoped flag guard (an automatic `InUseGuard` object of the
-  function body: set by its constructor, cleared by its destructor on return and on exception — the
-  translator checks the class has exactly that shape), and nothing else is written that way;
+  function body: set by its constructor, cleared — or put back to the saved value — by its destructor on
+  return and on exception; the translator checks the class has exactly one of these two shapes and
+  rejects anything else), and nothing else is written that way;
 * the three wrappers (and whatever overloads exist) were found and analysed (the translator fails otherwise);
 * nowhere in /repo/src is there a `const_cast`, `reinterpret_cast`, C-style pointer/reference cast or a
   `mutable` field of `Circuit`, so the const `Circuit` methods the analysed functions reach
@@ -167,5 +190,18 @@ theorem writes_table_closed :
     3 ≤ entryPoints.length ∧
     constEscapes.length = 0 := by
   decide
+
+/-- `guarded_call_frame` for the guard shape actually found in the tree, site by site: at every `isInUse_`
+site of the regenerated table, a call entered with the flag clear — or any call, when the site's guard is
+of the restore shape — leaves `isInUse_` as it found it, and the frame holds. -/
+theorem guarded_call_frame_on_tree (site : WriteSite) (_ : site ∈ writeSites) (_ : site.target.isInUse = true)
+    (ws : List Write) (o : Outcome) (s : Guarded) (h : s.inUse = false ∨ site.kind.restores = true) :
+    (withInUseGuard site.kind.restores (runStage ws o) s).2.inUse = s.inUse ∧
+    Frame true s.c (withInUseGuard site.kind.restores (runStage ws o) s).2.c := by
+  obtain ⟨_, hf, h1, h2, _⟩ := guarded_call_frame site.kind.restores ws o s
+  exact ⟨h.elim h1 h2, hf⟩
+
+/-- non-vacuity: the table has such a site -/
+example : ∃ site ∈ writeSites, site.target.isInUse = true := by decide
 
 end ColoVerif.C03
